@@ -32,6 +32,7 @@ RULE += ' Added classes: recordings spanning more than 2**32 samples; output pat
 RULE += ' Round 6: the refusal of the source directory also with force=True; a target differing from the source by letter case; truncated raw files; a Kilosort-2 templates_ind.npy.'
 RULE += " Round 7: spike seconds on a skewed clock (spikes.times.npy + spikes.samples.npy in a KS-named source); a sibling target sharing the source's name prefix; probe tables of any numeric dtype; int32 / int64 / uint32 channel maps; a channel listed twice in a feature column table."
 RULE += ' Round 8: probe tables with three and four probes; convert(out, label=None); fractional sampling rates.'
+RULE += " Round 9: Kilosort's batch-ordered spike_times_reordered.npy in the source; a labelled and then an unlabelled conversion on one creator."
 EXHAUSTIVE = {'quick': False, 'thorough': False}
 FLOORS = {'quick': {'evaluations': 600, 'distinct_nontrivial': 300},
           'thorough': {'evaluations': 9000, 'distinct_nontrivial': 5000}}
